@@ -174,10 +174,10 @@ def header_parts(src):
             c = c.strip()
             if not c:
                 continue
-            mm = re.fullmatch(r"([A-Za-z_][A-Za-z0-9_]*)\s*=\s*(\d+)", c)
+            mm = re.fullmatch(r"([A-Za-z_][A-Za-z0-9_]*)\s*=\s*(0[xX][0-9a-fA-F]+|\d+)[uUlL]*", c)
             if not mm:
                 raise ExtractError(f"maybenot.h enum {m.group(1)}: constant without explicit value: {c!r}")
-            consts.append((mm.group(1), int(mm.group(2))))
+            consts.append((mm.group(1), int(mm.group(2), 0) if mm.group(2).lower().startswith("0x") else int(mm.group(2))))
         enums.append((m.group(1), consts))
     typedefs = [(m.group(2), norm_ty(m.group(1)))
                 for m in re.finditer(r"\btypedef\s+((?:u?int\d+_t|uintptr_t|size_t|bool))\s+([A-Za-z_][A-Za-z0-9_]*)\s*;", s)]
